@@ -872,7 +872,7 @@ func (x *Exec) loopHead(fr *Frame, ld *loopData, st *State) {
 }
 
 func (x *Exec) cover(site string, st *State) {
-	if x.spec > 0 {
+	if x.spec > 0 || x.lawMode {
 		return
 	}
 	o := &Obligation{Name: x.TopKey + "/" + site, Kind: "cover", Func: x.TopKey, Guard: st.G, Goal: False(), NAssume: len(x.Assumes), Expect: "sat", ex: x, Note: "vacuity guard: must be satisfiable"}
@@ -999,6 +999,7 @@ func (x *Exec) prologue() (*State, []Val) {
 		}
 		t := x.evalGen(g, st, x.genArgs(g, args, nil, nil, nil, st))
 		x.assume(True(), t.C[0])
+		x.reqTerms = append(x.reqTerms, t.C[0])
 		x.learnDistinct(t.C[0])
 	}
 	x.cover("requires/cover", st)
